@@ -25,7 +25,8 @@ LEVEL = ("For generated aggregates (1-4 sites, with/without a vibrational mode) 
          "exp(-E/kT) underflows; a state requested inside eigenbasis_of(H) or inside an unrelated basis context and "
          "read after all contexts are closed equals the state requested outside; so does a state requested while other "
          "energy units are current, and a state requested from an aggregate that has been used before (diagonalised, "
-         "relaxation tensors or rate matrices built from it).")
+         "relaxation tensors or rate matrices built from it)."
+         " Later additions: deterministic grid of conditions x contexts; two-exciton band; modes on two molecules; supplied effective Hamiltonian in the weak-coupling limit; thermal reduced density matrices in units contexts and with non-zero ground-state energies.")
 NOTE = ("The 'thermal' condition does not fix its basis (the code says so); its Boltzmann clause is asserted for requests "
         "made outside any context (site basis). With vibrational levels only 'thermal', the weak-coupling state and "
         "get_thermal_ReducedDensityMatrix and the strong-coupling state (vibronic diagonal energies minus the site's "
